@@ -104,3 +104,22 @@ def open_qcow2(files, opaque, p):
     elif p.get("backing") == "allow_no":
         kw["backing_file"] = qcow2.ALLOW_NO_BACKING_FILE
     return qcow2.QCow2(files["img"], **kw)
+
+
+class _RangeProbe:
+    def __init__(self, data_file):
+        self.data_file = data_file
+
+    def range(self, entry, bitmap, sc_from):
+        import types
+
+        from dissect.hypervisor.disk import qcow2
+
+        q = types.SimpleNamespace(has_subclusters=True, has_data_file=self.data_file, subclusters_per_cluster=32)
+        t, c = qcow2.get_subcluster_range_type(q, entry, bitmap, sc_from)
+        return t, c
+
+
+@register("qcow2_subcluster_range")
+def open_qcow2_range(files, opaque, p):
+    return _RangeProbe(bool(p.get("data_file")))
